@@ -672,9 +672,9 @@ func (s *scope) interpretOp(obj pyObject, op OpExpression) pyObject {
 	case Not:
 		return s.negate(obj)
 	case Equal:
-		return newPyBool(reflect.DeepEqual(obj, s.interpretExpression(op.Expr)))
+		return newPyBool(objectsEqual(obj, s.interpretExpression(op.Expr), 0))
 	case NotEqual:
-		return newPyBool(!reflect.DeepEqual(obj, s.interpretExpression(op.Expr)))
+		return newPyBool(!objectsEqual(obj, s.interpretExpression(op.Expr), 0))
 	case Is:
 		return s.interpretIs(obj, op)
 	case IsNot:
@@ -690,6 +690,38 @@ func (s *scope) interpretOp(obj pyObject, op OpExpression) pyObject {
 	default:
 		return s.operator(op.Op, obj, s.interpretExpression(op.Expr))
 	}
+}
+
+// objectsEqual implements the == operator. Lists and dicts are compared by their contents, so
+// that a frozen list or dict is equal to an ordinary one holding the same values.
+func objectsEqual(a, b pyObject, depth int) bool {
+	if depth > 1000 {
+		panic("maximum recursion depth exceeded in comparison") // self-referential list or dict
+	}
+	if l, ok := asList(a); ok {
+		l2, ok := asList(b)
+		if !ok || len(l) != len(l2) {
+			return false
+		}
+		for i, v := range l {
+			if !objectsEqual(v, l2[i], depth+1) {
+				return false
+			}
+		}
+		return true
+	} else if d, ok := asDict(a); ok {
+		d2, ok := asDict(b)
+		if !ok || len(d) != len(d2) {
+			return false
+		}
+		for k, v := range d {
+			if v2, present := d2[k]; !present || !objectsEqual(v, v2, depth+1) {
+				return false
+			}
+		}
+		return true
+	}
+	return reflect.DeepEqual(a, b)
 }
 
 func (s *scope) operator(op Operator, obj, operand pyObject) pyObject {
